@@ -193,13 +193,55 @@ func (ev *EvalCtx) eval(e Expr) TV {
 // (ranges, well-formed references) are added as facts, exactly as for loads in the code.
 func (ev *EvalCtx) specLoad(p *Term, t types.Type) Val {
 	v := ev.fc.load(ev.cur, p, t)
-	if !strings.Contains(p.S, "!b") {
-		tf := ev.fc.typeFacts(ev.cur, v, t)
-		if !strings.Contains(tf.S, "!b") {
-			ev.fc.sc.Assert(tf)
+	return ev.typed(v, t)
+}
+
+// typed makes the type invariant of a value read by a spec available: closed terms get their type
+// facts asserted; terms under a quantifier (which cannot be asserted outside it) have their integer
+// leaves clamped into the range of their Go type - the identity on every real, well-typed state.
+func (ev *EvalCtx) typed(v Val, t types.Type) Val {
+	leaves := flatten(v, nil)
+	open := false
+	for _, l := range leaves {
+		if strings.Contains(l.S, "!b") {
+			open = true
 		}
 	}
-	return v
+	if !open {
+		ev.fc.sc.Assert(ev.fc.typeFacts(ev.cur, v, t))
+		return v
+	}
+	return ev.clamp(v, t)
+}
+
+func (ev *EvalCtx) clamp(v Val, t types.Type) Val {
+	if v.T != nil {
+		if v.T.Sort == SInt {
+			if lo, hi, ok := intRange(t, ev.fc.eng.ti.sizes); ok {
+				if isAtom(v.T.S) {
+					return scalar(Ite(And(Le(BigLit(lo), v.T), Le(v.T, BigLit(hi))), v.T, BigLit(lo)))
+				}
+				*ev.qn++
+				x := fmt.Sprintf("c!l%d", *ev.qn)
+				return scalar(mk(SInt, fmt.Sprintf("(let ((%s %s)) (ite (and (<= %s %s) (<= %s %s)) %s %s))", x, v.T.S, BigLit(lo).S, x, x, BigLit(hi).S, x, BigLit(lo).S)))
+			}
+		}
+		return v
+	}
+	out := Val{Fs: make([]Val, len(v.Fs))}
+	switch u := t.Underlying().(type) {
+	case *types.Struct:
+		for i := range v.Fs {
+			out.Fs[i] = ev.clamp(v.Fs[i], u.Field(i).Type())
+		}
+	case *types.Array:
+		for i := range v.Fs {
+			out.Fs[i] = ev.clamp(v.Fs[i], u.Elem())
+		}
+	default:
+		return v
+	}
+	return out
 }
 
 func pickType(a, b types.Type) types.Type {
@@ -484,7 +526,7 @@ func (ev *EvalCtx) evalIndex(e EIndex) TV {
 		return TV{V: ev.specLoad(p, u.Elem()), T: u.Elem(), Addr: p}
 	case *types.Map:
 		k := ev.eval(e.I)
-		return TV{V: fc.mapGet(ev.cur, x.V.T, u, k.V), T: u.Elem()}
+		return TV{V: ev.typed(fc.mapGet(ev.cur, x.V.T, u, k.V), u.Elem()), T: u.Elem()}
 	case *types.Basic:
 		if u.Info()&types.IsString != 0 {
 			i := ev.evalInt(e.I)
@@ -657,6 +699,14 @@ func (ev *EvalCtx) evalCall(e ECall) TV {
 			ev.fail("obj() of non-reference")
 		}
 		return TV{V: scalar(o)}
+	case "allocated_old":
+		argn(1)
+		x := ev.eval(e.Args[0])
+		o := refObj(x)
+		if ev.old == nil {
+			ev.fail("allocated_old() needs a pre-state")
+		}
+		return TV{V: scalar(Lt(o, ev.old.next))}
 	case "allocated":
 		// allocated(x): object existed in the current state
 		argn(1)
